@@ -21,3 +21,82 @@ func VerifCrc32(parts ...[]byte) uint32 {
 	}
 	return h.get()
 }
+
+// ---- data records (C09) ----
+
+// VerifRec is a flat copy of a record's fields.
+type VerifRec struct {
+	Key   []byte
+	Value []byte
+	Flag  uint32
+	Ver   int32
+	TS    uint32
+}
+
+func verifToRecord(v *VerifRec) *Record {
+	p := &Payload{}
+	p.TS, p.Flag, p.Ver = v.TS, v.Flag, v.Ver
+	p.Body = v.Value
+	return &Record{Key: v.Key, Payload: p}
+}
+
+func verifFromRecord(r *Record) *VerifRec {
+	v := &VerifRec{Key: append([]byte{}, r.Key...), Value: append([]byte{}, r.Payload.Body...)}
+	v.TS, v.Flag, v.Ver = r.Payload.TS, r.Payload.Flag, r.Payload.Ver
+	return v
+}
+
+// VerifWriteRecords writes the records with the data stream writer (as flush and GC do)
+// into a fresh file and returns the offset of each.
+func VerifWriteRecords(path string, recs []*VerifRec) (offsets []uint32, err error) {
+	w, err := GetStreamWriter(path, false)
+	if err != nil {
+		return nil, err
+	}
+	for _, v := range recs {
+		off, e := w.Append(verifToRecord(v))
+		if e != nil {
+			return offsets, e
+		}
+		offsets = append(offsets, off)
+	}
+	err = w.Close()
+	return
+}
+
+// VerifReadRecordAt is the positional read used by get (no decompression).
+func VerifReadRecordAt(path string, offset uint32) (*VerifRec, error) {
+	wrec, err := readRecordAtPath(path, offset)
+	if err != nil {
+		return nil, err
+	}
+	v := verifFromRecord(wrec.rec)
+	wrec.rec.Payload.Free()
+	return v, nil
+}
+
+type VerifScanItem struct {
+	Rec        *VerifRec
+	Offset     uint32
+	SizeBroken uint32
+}
+
+// VerifScan runs the sequential reader from start until it reports nil or an error.
+func VerifScan(path string, start uint32) (items []VerifScanItem, err error) {
+	r, err := newDataStreamReader(path, Conf.BufIOCap)
+	if err != nil {
+		return nil, err
+	}
+	defer r.Close()
+	r.seek(start)
+	for {
+		rec, offset, broken, e := r.Next()
+		if e != nil {
+			return items, e
+		}
+		if rec == nil {
+			return items, nil
+		}
+		items = append(items, VerifScanItem{verifFromRecord(rec), offset, broken})
+	}
+}
